@@ -835,8 +835,10 @@ impl StunClient {
         c0.mechanism is Some <==> self.mechanism is Some,
         self.mechanism is Some ==> self.mechanism->Some_0.wf(),
         self.mechanism is Some ==> self.mechanism->Some_0.st() == c0.mechanism->Some_0.st()
-            && forall|k: int| vx_i0 <= k < removed.len() ==> self.mechanism->Some_0.violated().contains(#[trigger] removed[k].transaction_id)
-                == c0.mechanism->Some_0.violated().contains(removed[k].transaction_id),
+            && (forall|k: int| vx_i0 <= k < removed.len() ==> self.mechanism->Some_0.violated().contains(#[trigger] removed[k].transaction_id)
+                == c0.mechanism->Some_0.violated().contains(removed[k].transaction_id))
+            && (forall|id: TransactionId| #[trigger] self.transactions@.contains_key(id) ==>
+                (self.mechanism->Some_0.violated().contains(id) == c0.mechanism->Some_0.violated().contains(id))),
         // events so far: one per served request
         events.events@.len() == vx_i0,
         forall|k: int| 0 <= k < vx_i0 ==> tmo_event_ok(c0, self.transactions@, (#[trigger] removed[k]).transaction_id, events.events@[k], now),
@@ -848,6 +850,12 @@ impl StunClient {
         final(self).use_fingerprint == old(self).use_fingerprint,
         final(self).rtt == old(self).rtt,
         final(self).transactions@.dom().subset_of(old(self).transactions@.dom()),
+        // C07/C17: a timer call leaves the credential state alone and consumes only the markers of requests it fails:
+        // the marker of a request that is merely retransmitted (or not due) survives until its final time-out
+        old(self).mechanism is Some <==> final(self).mechanism is Some,
+        final(self).mechanism is Some ==> final(self).mechanism->Some_0.st() == old(self).mechanism->Some_0.st()
+            && forall|id: TransactionId| #[trigger] final(self).transactions@.contains_key(id) ==>
+                (final(self).mechanism->Some_0.violated().contains(id) == old(self).mechanism->Some_0.violated().contains(id)),
         // requests whose deadline lies ahead are not touched
         forall|id: TransactionId| old(self).transactions@.contains_key(id) && dl(old(self).transactions@, id) > instant.ns@
             ==> final(self).transactions@.contains_key(id) && final(self).transactions@[id] == old(self).transactions@[id],
